@@ -30,6 +30,7 @@ pub struct Work {
     space: &'static str,
     prog: Program,
     stack: bool,
+    layout: Layout,
 }
 
 fn stmts_with_lit(kind: usize, l: Lit) -> (Stmt, u32, bool) {
@@ -70,7 +71,7 @@ pub fn workload(tier: Tier) -> Vec<Work> {
                     }
                     let stack = matches!(stmt, Stmt::Call(_));
                     prog.push(None, stmt);
-                    w.push(Work { space: "B1/operand-boundary", prog, stack });
+                    w.push(Work { space: "B1/operand-boundary", prog, stack, layout: Layout::PLAIN });
                 }
             }
         }
@@ -93,7 +94,7 @@ pub fn workload(tier: Tier) -> Vec<Work> {
         }
         for off in offs {
             if let Some(prog) = far_label(kind, off) {
-                w.push(Work { space: "B2/label-distance", prog, stack: kind == RefKind::Call });
+                w.push(Work { space: "B2/label-distance", prog, stack: kind == RefKind::Call, layout: Layout::PLAIN });
             }
         }
     }
@@ -103,12 +104,12 @@ pub fn workload(tier: Tier) -> Vec<Work> {
             let mut prog = Program::default();
             prog.items.push(Item::Orig(lit));
             prog.push(None, Stmt::Named(0x25, "halt"));
-            w.push(Work { space: "B3/orig-range", prog, stack: false });
+            w.push(Work { space: "B3/orig-range", prog, stack: false, layout: Layout::PLAIN });
         }
     }
     for v in 0..=300u16 {
         for l in [Lit::hex(v), Lit::dec(v as i32)] {
-            w.push(Work { space: "B3/trap-range", prog: Program::of(vec![Stmt::Trap(l)]), stack: false });
+            w.push(Work { space: "B3/trap-range", prog: Program::of(vec![Stmt::Trap(l)]), stack: false, layout: Layout::PLAIN });
         }
     }
     // B4: labels: undefined, duplicate, case-differing, at every pair of positions
@@ -120,14 +121,14 @@ pub fn workload(tier: Tier) -> Vec<Work> {
                 for pos in 0..n {
                     prog.push(if pos != i { Some(["l0", "l1", "l2"][pos]) } else { None }, if pos == i { kind.stmt("nowhere", pos) } else { filler(pos % 4) });
                 }
-                w.push(Work { space: "B4/undefined-label", prog, stack: kind == RefKind::Call });
+                w.push(Work { space: "B4/undefined-label", prog, stack: kind == RefKind::Call, layout: Layout::PLAIN });
                 for j in 0..n {
                     // case-differing: defined as "Tgt", referenced as "tgt"
                     let mut prog = Program::default();
                     for pos in 0..n {
                         prog.push(if pos == j { Some("Tgt") } else { None }, if pos == i { kind.stmt("tgt", pos) } else { filler(pos % 4) });
                     }
-                    w.push(Work { space: "B4/case-differing-label", prog, stack: kind == RefKind::Call });
+                    w.push(Work { space: "B4/case-differing-label", prog, stack: kind == RefKind::Call, layout: Layout::PLAIN });
                     // both spellings defined: the reference picks its own
                     if n >= 2 && j != (j + 1) % n {
                         let mut prog = Program::default();
@@ -135,7 +136,7 @@ pub fn workload(tier: Tier) -> Vec<Work> {
                             let label = if pos == j { Some("Tgt") } else if pos == (j + 1) % n { Some("tgt") } else { None };
                             prog.push(label, if pos == i { kind.stmt("tgt", pos) } else { filler(pos % 4) });
                         }
-                        w.push(Work { space: "B4/two-case-variants", prog, stack: kind == RefKind::Call });
+                        w.push(Work { space: "B4/two-case-variants", prog, stack: kind == RefKind::Call, layout: Layout::PLAIN });
                     }
                     // duplicate definitions on j and k
                     for k in (j + 1)..n {
@@ -143,11 +144,29 @@ pub fn workload(tier: Tier) -> Vec<Work> {
                         for pos in 0..n {
                             prog.push(if pos == j || pos == k { Some("dup") } else { None }, if pos == i { kind.stmt("dup", pos) } else { filler(pos % 4) });
                         }
-                        w.push(Work { space: "B4/duplicate-label", prog, stack: kind == RefKind::Call });
+                        w.push(Work { space: "B4/duplicate-label", prog, stack: kind == RefKind::Call, layout: Layout::PLAIN });
                     }
                 }
             }
         }
+    }
+    // B4b: labels in front of `.break` / `.orig` (they mark the next statement's address): duplicates
+    // that are separated only by such a directive, two different labels on one address, a trailing one
+    for kind in REF_KINDS {
+        let stack = kind == RefKind::Call;
+        let mk = |items: Vec<Item>| Work { space: "B4b/label-before-directive", prog: Program { items }, stack, layout: Layout::PLAIN };
+        let st = |l: Option<&str>, s: Stmt| Item::Stmt { label: l.map(|x| x.to_string()), stmt: s };
+        let r = |name: &str| kind.stmt(name, 1);
+        w.push(mk(vec![Item::LBreak("dup".into()), st(Some("dup"), filler(0)), st(None, r("dup"))]));
+        w.push(mk(vec![Item::LOrig("dup".into(), Lit::hex(0x3000)), st(Some("dup"), filler(0)), st(None, r("dup"))]));
+        w.push(mk(vec![st(Some("dup"), filler(0)), Item::LBreak("dup".into()), st(None, r("dup"))]));
+        w.push(mk(vec![Item::LBreak("dup".into()), Item::LBreak("dup".into()), st(None, r("dup"))]));
+        w.push(mk(vec![Item::LBreak("dup".into()), Item::Break, Item::LOrig("dup".into(), Lit::hex(0x3000)), st(None, r("dup"))]));
+        w.push(mk(vec![st(None, r("dup")), st(Some("dup"), filler(1)), st(None, filler(0)), Item::LBreak("dup".into())]));
+        // valid: two names for one address, a label after the last statement
+        w.push(mk(vec![Item::LBreak("a".into()), st(Some("b"), filler(0)), st(None, r("a")), st(None, kind.stmt("b", 2))]));
+        w.push(mk(vec![st(None, r("tail")), st(None, filler(0)), Item::LBreak("tail".into())]));
+        w.push(mk(vec![Item::LOrig("o".into(), Lit::hex(0x4000)), st(None, r("o")), st(None, filler(3))]));
     }
     // B5: .orig zero to three times at every position of a 3-statement program
     for mask in 0..64usize {
@@ -166,14 +185,19 @@ pub fn workload(tier: Tier) -> Vec<Work> {
                 prog.push(None, stmts[g].clone());
             }
         }
-        w.push(Work { space: "B5/orig-count", prog, stack: false });
+        w.push(Work { space: "B5/orig-count", prog, stack: false, layout: Layout::PLAIN });
     }
     // doubled .orig directly after each other
     let mut prog = Program::default();
     prog.items.push(Item::Orig(Lit::hex(0x3000)));
     prog.items.push(Item::Orig(Lit::hex(0x3000)));
     prog.push(None, Stmt::Named(0x25, "halt"));
-    w.push(Work { space: "B5/orig-count", prog, stack: false });
+    w.push(Work { space: "B5/orig-count", prog, stack: false, layout: Layout::PLAIN });
+    // and the whole corpus of C01 (every operand value, label placement, label spelling, layout):
+    // there the reference accepts everything, so any rejection is a violation of this property
+    for c in super::c01::workload(tier) {
+        w.push(Work { space: c.space, prog: c.prog, stack: c.stack, layout: c.layout });
+    }
     w
 }
 
@@ -195,7 +219,7 @@ pub fn run(ctx: &Ctx) -> i32 {
     let work = workload(ctx.tier);
     let parts = pooled_by_flag(work.len(), 64, |i| work[i].stack, Acc::new, |acc, i| {
         let wk = &work[i];
-        let text = print_plain(&wk.prog);
+        let text = print(&wk.prog, &wk.layout).text;
         acc.eval(wk.space);
         let culprit = |prog: &Program| -> String {
             // the statement of interest: last statement for single-focus programs
@@ -260,7 +284,7 @@ pub fn run(ctx: &Ctx) -> i32 {
         ctx,
         acc,
         Level { category: "model_checking", bfs: None },
-        "bounded-exhaustive enumeration: every literal-taking statement form x boundary values (min-1,min,min+1,-2,-1,0,1,max-1,max,max+1,16-bit extremes) x every spelling x two statement positions; label distances at/around every field limit and congruent modulo 2^16 (built with .blkw); all 65536 .orig values and 301 trap vectors in two spellings; undefined / duplicate / case-differing labels at every position pair; .orig 0-4 times at every gap; literals beyond 16 bits. Oracle: accepted iff the reference accepts, and when accepted the image equals the reference image (so truncation/spill is caught); a panic is a violation. non-trivial = both sides agree (accept or reject), each case a distinct text",
+        "bounded-exhaustive enumeration: every literal-taking statement form x boundary values (min-1,min,min+1,-2,-1,0,1,max-1,max,max+1,16-bit extremes) x every spelling x two statement positions; label distances at/around every field limit and congruent modulo 2^16 (built with .blkw); all 65536 .orig values and 301 trap vectors in two spellings; undefined / duplicate / case-differing labels at every position pair; .orig 0-4 times at every gap; literals beyond 16 bits; plus the whole C01 corpus (which the reference accepts). Oracle: accepted iff the reference accepts, and when accepted the image equals the reference image (so truncation/spill is caught); a panic is a violation. non-trivial = both sides agree (accept or reject), each case a distinct text",
         true,
         &["accepted-by-both", "rejected-by-both"],
         &["reference acceptance rule = the property statement's field ranges; literals denote 16-bit words, signed fields read them as two's complement"],
